@@ -14,10 +14,18 @@
                        the stored value is <= the weight of every walk from s (and attained by the tree walk): it
                        is the true shortest distance.
      C12_all           the trees of all sources (as the cycle builders construct them) exist.
-   NOT proved: C12_consistent_statement (reversal symmetry and sub-path closure across sources) — kept as a
-   Definition; covered by the exact correspondence plus the independent judge of tools/props/c12.py. *)
+   Cross-source consistency (positive weights; proofs in LexSPProofsCons1..5.v), at the end of this file:
+     C12_tree_is_lexmin      the tree walk from the source s to v is a shortest s-v walk whose label (weight, number
+                             of edges, vertex set; order lc_LT = LexDistanceCompare on labels of simple paths) is not
+                             above the label of any shortest s-v walk; such a walk is unique (C12_lexmin_unique).
+     C12_consistent_reverse  the tree walk u -> v (in the tree of u) is the tree walk v -> u (in the tree of v)
+                             backwards: same edges in reverse order (and the same vertices).
+     C12_consistent_subpath  every sub-walk of a tree walk is the tree walk between its endpoints, in the tree of
+                             its first vertex.
+     C12_consistent          = LexSPProofsDist.C12_consistent_statement (the two clauses together). *)
 From Coq Require Import List Arith ZArith.
 From Parmcb Require Import GraphModel GraphSpec LexSPModel LexSPProofs LexSPProofsDist.
+From Parmcb Require Import LexSPProofsCons1 LexSPProofsCons2 LexSPProofsCons5.
 Import ListNotations.
 
 Theorem C12_tree_partial : forall g wts s,
@@ -59,4 +67,75 @@ Example C12_nonvacuous :
 Proof.
   split; [reflexivity|]. split; [split; [reflexivity|repeat constructor]|].
   eexists. split; [vm_compute; reflexivity|]. vm_compute. repeat split.
+Qed.
+
+(* ---- consistency across sources ---------------------------------------------------------------------------
+   Vocabulary (LexSPProofsCons1.v): lc_pl wts x p = the label (lz_sum wts p, length p, x :: wverts p) of the walk p
+   from x; lc_LT = the lexicographic order on labels: weight, then number of edges, then "the least vertex of the
+   symmetric difference of the two vertex sets belongs to the smaller one" — on labels of simple paths this is
+   exactly LexDistanceCompare (LexSPProofsCons1.lc_ltb_LT); lc_shortest g wts x p y = p is an x-y walk of minimum
+   weight; lc_lexmin g wts x p y = p is shortest and no shortest x-y walk has a label lc_LT-below that of p;
+   lc_rev x p = the walk p from x, backwards (same edges in reverse order, each paired with the vertex it now
+   reaches). *)
+
+Theorem C12_tree_is_lexmin : forall g wts s t p v,
+  simple_graph g -> positive_weights g wts ->
+  sptree_Z g wts s = LxOk t -> c12_twalk g t p v -> lc_lexmin g wts s p v.
+Proof. exact lc_tree_lexmin. Qed.
+Print Assumptions C12_tree_is_lexmin.
+
+Theorem C12_lexmin_unique : forall g wts,
+  simple_graph g -> positive_weights g wts ->
+  forall p q x y, lc_lexmin g wts x p y -> lc_lexmin g wts x q y -> p = q.
+Proof. exact lc_lexmin_unique. Qed.
+Print Assumptions C12_lexmin_unique.
+
+Theorem C12_consistent_reverse : forall g wts,
+  simple_graph g -> positive_weights g wts ->
+  forall u v tu tv p q,
+    sptree_Z g wts u = LxOk tu -> sptree_Z g wts v = LxOk tv ->
+    c12_twalk g tu p v -> c12_twalk g tv q u ->
+    q = lc_rev u p /\ wedges q = rev (wedges p).
+Proof. exact lc_C12_reverse. Qed.
+Print Assumptions C12_consistent_reverse.
+
+Theorem C12_consistent_subpath : forall g wts,
+  simple_graph g -> positive_weights g wts ->
+  forall u v tu p, sptree_Z g wts u = LxOk tu -> c12_twalk g tu p v ->
+  forall p1 p2 p3 x y tx, p = p1 ++ p2 ++ p3 -> walk g u p1 x -> walk g x p2 y ->
+                          sptree_Z g wts x = LxOk tx -> c12_twalk g tx p2 y.
+Proof. exact lc_C12_subpath. Qed.
+Print Assumptions C12_consistent_subpath.
+
+Theorem C12_consistent : C12_consistent_statement.
+Proof. exact lc_C12_consistent. Qed.
+Print Assumptions C12_consistent.
+
+(* non-vacuity on a graph with ties: the unit-weight 4-cycle 0-1-2-3-0.  The two shortest 0-2 walks tie in weight and
+   number of edges; both trees choose the one through vertex 1, the walk 2 -> 0 of tree 2 is the walk 0 -> 2 of tree 0
+   backwards, and the sub-walk 1 -> 2 of the latter is the tree walk of tree 1 *)
+Definition c12_c4_g : graph := {| nv := 4; ge := [(0, 1); (1, 2); (2, 3); (3, 0)] |}.
+Definition c12_c4_w : list Z := [1; 1; 1; 1]%Z.
+
+Example C12_consistent_nonvacuous :
+  simple_graph c12_c4_g /\ positive_weights c12_c4_g c12_c4_w /\
+  exists t0 t2 t1,
+    sptree_Z c12_c4_g c12_c4_w 0 = LxOk t0 /\ sptree_Z c12_c4_g c12_c4_w 2 = LxOk t2 /\
+    sptree_Z c12_c4_g c12_c4_w 1 = LxOk t1 /\
+    c12_twalk c12_c4_g t0 [(0, 1); (1, 2)] 2 /\ c12_twalk c12_c4_g t2 [(1, 1); (0, 0)] 0 /\
+    wedges [(1, 1); (0, 0)] = rev (wedges [(0, 1); (1, 2)]) /\
+    [(1, 1); (0, 0)] = lc_rev 0 [(0, 1); (1, 2)] /\
+    c12_twalk c12_c4_g t1 [(1, 2)] 2.
+Proof.
+  split; [reflexivity|]. split; [split; [reflexivity|repeat constructor]|].
+  eexists. eexists. eexists. split; [vm_compute; reflexivity|]. split; [vm_compute; reflexivity|].
+  split; [vm_compute; reflexivity|].
+  unfold c12_twalk. cbn [st_nodes st_src].
+  split; [|split; [|split; [reflexivity|split; [reflexivity|]]]].
+  - change [(0, 1); (1, 2)] with (([] ++ [(0, 1)]) ++ [(1, 2)]).
+    eapply ltw_snoc; [eapply ltw_snoc; [apply ltw_nil; discriminate| | |]| | |]; reflexivity.
+  - change [(1, 1); (0, 0)] with (([] ++ [(1, 1)]) ++ [(0, 0)]).
+    eapply ltw_snoc; [eapply ltw_snoc; [apply ltw_nil; discriminate| | |]| | |]; reflexivity.
+  - change [(1, 2)] with ([] ++ [(1, 2)]).
+    eapply ltw_snoc; [apply ltw_nil; discriminate| | |]; reflexivity.
 Qed.
